@@ -6,6 +6,8 @@ KW_PREFIXED = ["module_x", "end1", "wirex", "begin$x", "endmodule2", "posedge1",
                "for1", "if_", "case0", "assign1", "logic$", "int9", "fork2", "always_x", "endfunction7", "generate0", "wire$"]
 PLAIN = ["a", "b1", "clk", "rst_n", "data", "q", "d", "sel", "Z9", "_u", "x_y"]
 ESC = ["\\esc+x", "\\a.b", "\\1st", "\\end"]
+# words that are units, system names or method names elsewhere in the grammar but plain identifiers here
+UNITLIKE = ["s", "ms", "us", "ns", "ps", "fs", "step", "std", "randomize", "sample", "PATHPULSE", "e1", "x1", "z0", "b0", "h1", "d2", "o7"]
 
 
 class Gen:
@@ -20,7 +22,8 @@ class Gen:
         r = self.r
         for _ in range(50):
             x = r.random()
-            n = r.choice(KW_PREFIXED) if x < 0.45 else r.choice(PLAIN) + str(r.randint(0, 99)) if x < 0.9 else (r.choice(ESC) if esc_ok else "p")
+            n = (r.choice(KW_PREFIXED) if x < 0.4 else r.choice(UNITLIKE) if x < 0.48 else r.choice(PLAIN) + str(r.randint(0, 99)) if x < 0.9
+                 else (r.choice(ESC) if esc_ok else "p"))
             if n not in self.used:
                 self.used.add(n)
                 return n
@@ -213,7 +216,10 @@ class Gen:
                     self.sym("="); self.num()
                 self.sym(";"); vars_.append(n); self.exp.append(("VariableDeclAssignment", n))
             elif x < 0.5 and vars_:
-                self.kw("assign"); self.id(r.choice(vars_)); self.sym("="); self.expr(vars_ + params); self.sym(";")
+                self.kw("assign")
+                if r.random() < 0.35:      # a delay: integer, fixed-point or exponent real, or a time literal
+                    self.sym("#"); self.toks.append((r.choice(["1", "2.5", "0.5", "3.0", "1e3", "2.5e-1", "10ns", "1.5ps", "7"]), "num"))
+                self.id(r.choice(vars_)); self.sym("="); self.expr(vars_ + params); self.sym(";")
                 self.exp.append(("ContinuousAssign", None))
             elif x < 0.62 and vars_:
                 self.kw(r.choice(["always", "always_comb", "always_ff"]) if kind != "program" else "initial")
